@@ -27,6 +27,9 @@ def gen_tamper(rng, chain, recs):
         return ("link", rng.randrange(n), rng.choice(["edit", "remove"]))
     b = rng.choice(boundaries)
     files = covered_files(recs[b - 1])
+    deep = [f for f in files if "/build/" in f or f.startswith("vendor/") or "vendor/" in f]
+    if deep and rng.random() < 0.5:
+        files = deep        # places where a recorder that prunes or strips too much would look away
     kind = rng.choice(["edit", "add", "delete", "rename", "rewrite_same", "uncovered", "delete_all"])
     if kind in ("edit", "delete", "rename", "rewrite_same", "delete_all") and not files:
         kind = "add"
@@ -91,6 +94,7 @@ def run(ctx):
     viol = 0
     vreqs, expect, meta = [], [], []
     pending, to_resolve = [], []
+    rec_model = core.Model()
     dist = {"honest_accept": 0, "tamper_effective": 0, "tamper_ineffective": 0, "kinds": {}}
     samples = []
     for i in range(n):
@@ -98,6 +102,7 @@ def run(ctx):
         recs, project, linkdir = ch.record_chain(ctx, chain)
         if not all(r["file_exists"] and not r["exc"] for r in recs):
             continue
+        ch.resolve_records(rec_model, recs)      # what the specification says is covered at each boundary
         family = ctx.rng.choice(["R", "B"])
         layout = ch.derive_layout(ctx.rng, chain, recs, family)
         layout_md = ch.sign_layout(layout, owner, dsse=ctx.rng.random() < 0.3)
